@@ -185,11 +185,16 @@ fn gen_pair(rng: &mut Rng) -> Pair {
         9 | 10 => {
             let alts = ["INTEGER (0..5)", "BOOLEAN", "OCTET STRING (SIZE (4))", "IA5String"];
             let k = rng.below(alts.len());
-            let helpers = format!("@HTc ::= CHOICE {{ {} }}\n", alts.iter().enumerate().map(|(i, a)| format!("sq{i} {a}")).collect::<Vec<_>>().join(", "));
+            // a third of the cases: the alternatives carry tags of their own; the selection type denotes the *tagged* type
+            // (X.680 30.1: "the type of the selected alternative")
+            let tagged = rng.chance(1, 3);
+            let alt = |i: usize| if tagged { format!("[{}] {}", i + 3, alts[i]) } else { alts[i].to_string() };
+            let helpers = format!("@HTc ::= CHOICE {{ {} }}\n", (0..alts.len()).map(|i| format!("sq{i} {}", alt(i))).collect::<Vec<_>>().join(", "));
+            let t = if tagged { ",tagged-alternative" } else { "" };
             if rng.chance(1, 2) {
-                Pair { family: "selection-type", class: "assignment".into(), helpers, sugared: format!("Tq1 ::= sq{k} < @HTc\n"), expanded: format!("Tq1 ::= {}\n", alts[k]) }
+                Pair { family: "selection-type", class: format!("assignment{t}"), helpers, sugared: format!("Tq1 ::= sq{k} < @HTc\n"), expanded: format!("Tq1 ::= {}\n", alt(k)) }
             } else {
-                Pair { family: "selection-type", class: "component".into(), helpers, sugared: format!("Tq1 ::= SEQUENCE {{ fq1 sq{k} < @HTc, fq2 NULL }}\n"), expanded: format!("Tq1 ::= SEQUENCE {{ fq1 {}, fq2 NULL }}\n", alts[k]) }
+                Pair { family: "selection-type", class: format!("component{t}"), helpers, sugared: format!("Tq1 ::= SEQUENCE {{ fq1 sq{k} < @HTc, fq2 NULL }}\n"), expanded: format!("Tq1 ::= SEQUENCE {{ fq1 {}, fq2 NULL }}\n", alt(k)) }
             }
         }
         // ---- fixed-type class field
